@@ -5,8 +5,8 @@ from .. import env, coq, runner, tables
 
 LEVEL = 'proof'
 META = dict(
-    text='Coq theorems (closed under the global context) over a hand-written Gallina model of measurement keys (path, name), key maps, scoped lookup of control keys, classical conditions and CircuitOperation with all its fields, written in the shape of the code (_mapped_any_loop: qubit map -> inverse for negative repetitions -> key map -> parameters; _mapped_single_loop: rescoping with the repetition id, then with parent path and extern keys; mapped_circuit with repetition ids vs plain repetition and deep recursion through Circuit.zip; the with_qubit_mapping / with_measurement_key_mapping / with_params / repeat(-1) / _with_rescoped_keys_ compositions pushed onto nested operations). Proved for every nesting depth, repetition count (positive or negative, non-zero), repetition ids, qubit/key/parameter maps and parent paths: the measurement keys and the qubits a nested operation reports equal those of its completely unrolled circuit; the unrolled circuit consists, moment by moment, of exactly the leaves a compositional semantics prescribes (which operation, inverted or not, on which qubits); key prefixing and key maps compose, control keys bind to the innermost enclosing bound measurement and never to a key bound later; remapping a condition changes only its key iff both replace_key implementations keep the other fields (two booleans read off the working tree on every run: both true since the F2 fix, so the faithful-remapping theorem is live on the tree and stops compiling if replace_key drops fields again); constructor compositions; repeat_until = least number of passes (under fuel). The zero-repetition case is refuted by a proved witness (F7). On every run the model is evaluated with vm_compute on generated nestings (depth 0-3) and compared exactly with the implementation: mapped_circuit shallow/deep moment by moment, measurement/control key sets, parameter names, qubits, is_measurement, touched key names and the fields after one further remapping of each kind; spec-level oracles on the real code compare the wrapped operation with its unrolled circuit by unitary (incl. the single-qubit fast path), deterministic simulation records, exact outcome distribution (scripted seed object enumerating every measurement branch), repeat_until loop counts, scoping templates with independently known outcomes, decompose / unroll_circuit_op* and remapping-commutes-with-unrolling. repeat_until loops at any nesting level (condition over a key of the loop body and a key measured in an enclosing sub-circuit that rescopes keys: repetition ids, parent paths, further enclosing levels, same-named top-level keys) are judged against a loop-free flat reference: each loop becomes k plain repetitions of its body followed by a classical control with the loop condition on a fresh ancilla, whose records certify that k is the do-while count; the loops\' control keys (per instance of the partial unrolling and of the whole circuit) and the simulation records of the wrapped and partially unrolled circuit must equal the reference (fixed grid for every seed + generated nests); two theorems back this oracle: one pass of a loop over body ++ [probe] is the pass over the body followed by the probe carrying exactly the mapped repeat_until condition (C12_until_scoped_as_last_control), and a further key map renames every key name the loop condition reads (C12_until_names_under_key_map; composing over the names of the body only, as the implementation does, is refuted: F20). Classically controlled SUB-CIRCUITS (a ClassicallyControlledOperation whose sub-operation is a CircuitOperation that itself holds classically controlled gates; Circ/CtlSub.v models its three key transformations - conditions AND controlled operation -, its flat form = the unrolled sub-circuit with the conditions of the control on every operation, and its control keys): proved that the flat form commutes with rescoping / key maps / prefixing condition by condition (C12_ctl_flat_*), that a user-level control key looked up from inside a rescoped operation finds exactly the binding of the enclosing scope (C12_ctl_inner_key_binding), and that transforming control and controlled operation piecewise and then unrolling equals rescoping the flat form (C12_ctl_rescope_then_unroll; a rescoping that stops at the conditions of the control is refuted by a witness).  On every run: the model vs the implementation on controlled sub-circuits taken alone (rescoped / key-mapped / prefixed pair, flat form, control keys), each of them decomposed after a key map / after rescoping vs the flat form transformed condition by condition with the positional definitions, and nests in which controlled sub-circuits sit inside enclosing sub-circuits that measure the keys the inner conditions read and rescope them (repetition ids, parent paths, key maps, further levels, a same-named top-level key; fixed grid for every seed + generated nests) vs the reference nest in which every controlled sub-circuit is written out as its unrolled operations carrying the controls: reported measurement / control keys, cirq.decompose and mapped_circuit + decompose (trace equivalence up to the order of conditions), simulation records of the wrapped and the decomposed circuit, and one further key map / key-path prefix / rescoping applied to both nests.',
-    note='Trusted: Coq kernel; vf/checks/c12.py (building Cirq objects from case records, decoding Cirq objects back, printing Gallina literals, the Python oracles); vf/tables_c12.py. Leaves other than CircuitOperation are abstract (identifier, inversion flag, qubits, keys, conditions, one parameter) and are instantiated by six gate families, measurements and classically controlled gates; key equality is componentwise (path, name), equal to Cirq\'s string equality when no path component contains ":"; sympy conditions are restricted to five expression templates and modelled by simultaneous substitution (as the implementation does since the F13 fix); key-map / qubit-map collision checks of the with_* methods are not modelled (generated maps are injective); control keys and conditions of the unrolled circuit, parameter names and repeat_until are compared with the model but have no unrolling theorem; tagged CircuitOperations are covered by the simulation oracle only; classically controlled CircuitOperations are modelled as a pair (conditions, operation) outside the inductive type of operations, so inside a nest they are judged against the reference nest with the controlled sub-circuit written out (the unrolling of the bare sub-circuit is taken from the implementation, where it never meets a controlled sub-circuit, and the reference nest is an ordinary nest of the kind the struct stream compares with the model); C12_ctl_rescope_then_unroll is stated for bodies of gates (one level), positive repetition counts, user-level keys and no extern keys; a reference that reads a key nobody measures has no simulation outcome (counted, keys and unrolling still compared); with a zero-repetition operation in the nest the key sets are left to F7. the flat reference of nested repeat_until loops exists only when every instance of a loop needs the same number (<= 4) of passes (other cases are skipped and counted), and it trusts the scoping of a classical control placed at the end of the loop body (covered by the key theorems and the struct correspondence). known_findings/C12.json lists seven open signatures (F7, F14, F15, F16 x3, F18) and six fixed ones (F2 x2, F4, F13, F13b, F20).',
+    text='Coq theorems (closed under the global context) over a hand-written Gallina model of measurement keys (path, name), key maps, scoped lookup of control keys, classical conditions and CircuitOperation with all its fields, written in the shape of the code (_mapped_any_loop: qubit map -> inverse for negative repetitions -> key map -> parameters; _mapped_single_loop: rescoping with the repetition id, then with parent path and extern keys; mapped_circuit with repetition ids vs plain repetition and deep recursion through Circuit.zip; the with_qubit_mapping / with_measurement_key_mapping / with_params / repeat(-1) / _with_rescoped_keys_ compositions pushed onto nested operations). Proved for every nesting depth, repetition count (positive or negative, non-zero), repetition ids, qubit/key/parameter maps and parent paths: the measurement keys and the qubits a nested operation reports equal those of its completely unrolled circuit; the unrolled circuit consists, moment by moment, of exactly the leaves a compositional semantics prescribes (which operation, inverted or not, on which qubits); key prefixing and key maps compose, control keys bind to the innermost enclosing bound measurement and never to a key bound later; remapping a condition changes only its key iff both replace_key implementations keep the other fields (two booleans read off the working tree on every run: both true since the F2 fix, so the faithful-remapping theorem is live on the tree and stops compiling if replace_key drops fields again); constructor compositions; repeat_until = least number of passes (under fuel). The zero-repetition case is refuted by a proved witness (F7). On every run the model is evaluated with vm_compute on generated nestings (depth 0-3) and compared exactly with the implementation: mapped_circuit shallow/deep moment by moment, measurement/control key sets, parameter names, qubits, is_measurement, touched key names and the fields after one further remapping of each kind; spec-level oracles on the real code compare the wrapped operation with its unrolled circuit by unitary (incl. the single-qubit fast path), deterministic simulation records, exact outcome distribution (scripted seed object enumerating every measurement branch), repeat_until loop counts, scoping templates with independently known outcomes, decompose / unroll_circuit_op* and remapping-commutes-with-unrolling. repeat_until loops at any nesting level (condition over a key of the loop body and a key measured in an enclosing sub-circuit that rescopes keys: repetition ids, parent paths, further enclosing levels, same-named top-level keys) are judged against a loop-free flat reference: each loop becomes k plain repetitions of its body followed by a classical control with the loop condition on a fresh ancilla, whose records certify that k is the do-while count; the loops\' control keys (per instance of the partial unrolling and of the whole circuit) and the simulation records of the wrapped and partially unrolled circuit must equal the reference (fixed grid for every seed + generated nests); two theorems back this oracle: one pass of a loop over body ++ [probe] is the pass over the body followed by the probe carrying exactly the mapped repeat_until condition (C12_until_scoped_as_last_control), and a further key map renames every key name the loop condition reads (C12_until_names_under_key_map; composing over the names of the body only, as the implementation does, is refuted: F20). Classically controlled SUB-CIRCUITS (a ClassicallyControlledOperation whose sub-operation is a CircuitOperation that itself holds classically controlled gates; Circ/CtlSub.v models its three key transformations - conditions AND controlled operation -, its flat form = the unrolled sub-circuit with the conditions of the control on every operation, and its control keys): proved that the flat form commutes with rescoping / key maps / prefixing condition by condition (C12_ctl_flat_*), that a user-level control key looked up from inside a rescoped operation finds exactly the binding of the enclosing scope (C12_ctl_inner_key_binding), and that transforming control and controlled operation piecewise and then unrolling equals rescoping the flat form (C12_ctl_rescope_then_unroll; a rescoping that stops at the conditions of the control is refuted by a witness).  On every run: the model vs the implementation on controlled sub-circuits taken alone (rescoped / key-mapped / prefixed pair, flat form, control keys), each of them decomposed after a key map / after rescoping vs the flat form transformed condition by condition with the positional definitions, and nests in which controlled sub-circuits sit inside enclosing sub-circuits that measure the keys the inner conditions read and rescope them (repetition ids, parent paths, key maps, further levels, a same-named top-level key; fixed grid for every seed + generated nests) vs the reference nest in which every controlled sub-circuit is written out as its unrolled operations carrying the controls: reported measurement / control keys, cirq.decompose and mapped_circuit + decompose (trace equivalence up to the order of conditions), simulation records of the wrapped and the decomposed circuit, and one further key map / key-path prefix / rescoping applied to both nests.  CONDITIONAL BLOCKS written with cirq.If (cirq.If(conds, CircuitOperation), the multi-operation form cirq.If(conds, op1, op2, ...), the layered forms If(c1, If(rest, S)) / If(c1, S.with_classical_controls(rest)) the constructor folds, and cirq.If over a single gate) are the same pair (conditions, operation) of Circ/CtlSub.v and go through every oracle of the controlled sub-circuits in each form (every fixed case alone in the plain form and in one cirq.If form, generated nests with half of the controls written as cirq.If, a fixed grid of blocks whose body holds controls on keys that are NOT among the conditions of the block - a key measured earlier in the enclosing sub-circuit, a key measured outside the nest, both - under six enclosing rescopings / key maps and three outer wrappers); additionally the circuit built from the operation SEQUENCE with the default insertion strategy (placement by the qubits and keys an operation reports) must simulate like the flat reference.  Circ/CondBlock.v: the folding of condition layers preserves flat form and control keys and commutes with the three key transformations (C12_if_fold_*), and a block over a non-empty body of gates reports, as a set, exactly the keys the operations of its flat form read (C12_block_control_keys_are_flat_reads; control keys taken from the conditions of the block alone are refuted by a witness).',
+    note='Trusted: Coq kernel; vf/checks/c12.py (building Cirq objects from case records, decoding Cirq objects back, printing Gallina literals, the Python oracles); vf/tables_c12.py. Leaves other than CircuitOperation are abstract (identifier, inversion flag, qubits, keys, conditions, one parameter) and are instantiated by six gate families, measurements and classically controlled gates; key equality is componentwise (path, name), equal to Cirq\'s string equality when no path component contains ":"; sympy conditions are restricted to five expression templates and modelled by simultaneous substitution (as the implementation does since the F13 fix); key-map / qubit-map collision checks of the with_* methods are not modelled (generated maps are injective); control keys and conditions of the unrolled circuit, parameter names and repeat_until are compared with the model but have no unrolling theorem; tagged CircuitOperations are covered by the simulation oracle only; classically controlled CircuitOperations and cirq.If blocks are modelled as the same pair (conditions, operation) outside the inductive type of operations (the model does not distinguish the two classes; a cirq.If over a single gate is the leaf with those conditions), so inside a nest they are judged against the reference nest with the controlled sub-circuit written out (the unrolling of the bare sub-circuit is taken from the implementation, where it never meets a controlled sub-circuit, and the reference nest is an ordinary nest of the kind the struct stream compares with the model); C12_ctl_rescope_then_unroll and C12_block_control_keys_are_flat_reads are stated for bodies of gates (one level), positive repetition counts, user-level keys and no extern keys; tagged sub-circuits under a cirq.If are not generated; a reference that reads a key nobody measures has no simulation outcome (counted, keys and unrolling still compared); with a zero-repetition operation in the nest the key sets are left to F7. the flat reference of nested repeat_until loops exists only when every instance of a loop needs the same number (<= 4) of passes (other cases are skipped and counted), and it trusts the scoping of a classical control placed at the end of the loop body (covered by the key theorems and the struct correspondence). known_findings/C12.json lists seven open signatures (F7, F14, F15, F16 x3, F18) and six fixed ones (F2 x2, F4, F13, F13b, F20).',
     technique='Rocq/Coq proof over an executable Gallina model + vm_compute correspondence against the implementation + differential simulation oracles (exact branch enumeration)',
 )
 
@@ -85,7 +85,8 @@ class Vocab:
             n, _ = self.PARAM[l['uid']]
             op = getattr(cirq, n)(exponent=s * self.pval(l['ps'][0])).on(*qs)
         if l['cs']:
-            op = op.with_classical_controls(*[self.cond(c) for c in l['cs']])
+            conds = [self.cond(c) for c in l['cs']]
+            op = cirq.If(conds, op) if l.get('via') == 'if' else op.with_classical_controls(*conds)
         return op
 
     def circuit(self, moments):
@@ -112,9 +113,34 @@ class Vocab:
     def op(self, o):
         if o['t'] == 'leaf':
             return self.leaf(o)
-        if o.get('cs'):      # a classically controlled sub-circuit: ClassicallyControlledOperation(CircuitOperation, conditions)
-            return self.sub(o).with_classical_controls(*[self.cond(c) for c in o['cs']])
+        if o.get('cs'):      # a classically controlled sub-circuit
+            return self.ctl(o)
         return self.sub(o)
+
+    PLAIN = dict(reps=1, ids=None, use=False, qm=[], km=[], pm=[], pp=[], ext=[], until=None)
+
+    def ctl(self, o, cs=None, via=None):
+        """The conditioned sub-circuit of a record with `cs`, written in the form `via`:
+          'cco'    ClassicallyControlledOperation(CircuitOperation, conditions)        (op.with_classical_controls)
+          'if'     cirq.If(conditions, CircuitOperation)
+          'ifops'  cirq.If(conditions, op1, op2, ...): the conditional block written as a list of operations (the constructor
+                   wraps them); only for a sub-circuit without maps / repetitions / path, otherwise 'if'
+          'ifnest' cirq.If(first condition, cirq.If(other conditions, CircuitOperation))   (the constructor folds the layers)
+          'ifcco'  cirq.If(first condition, CircuitOperation.with_classical_controls(other conditions))        (same)"""
+        cirq = self.cirq
+        cs = o['cs'] if cs is None else cs
+        via = via or o.get('via') or 'cco'
+        conds = [self.cond(c) for c in cs]
+        if via == 'cco':
+            return self.sub(o).with_classical_controls(*conds)
+        if via == 'ifops' and all(o[k] == v for k, v in self.PLAIN.items()):
+            ops = [self.op(x) for m in o['c'] for x in m]
+            return cirq.If(conds, *ops) if len(ops) > 1 else cirq.If(conds, ops)
+        if via == 'ifnest' and len(conds) > 1:
+            return cirq.If(conds[0], cirq.If(conds[1:], self.sub(o)))
+        if via == 'ifcco' and len(conds) > 1:
+            return cirq.If(conds[0], self.sub(o).with_classical_controls(*conds[1:]))
+        return cirq.If(conds, self.sub(o))
 
     # -- decode
     def dkey(self, k):
@@ -155,6 +181,8 @@ class Vocab:
     def dleaf(self, op):
         cirq = self.cirq
         cs = []
+        if isinstance(op, cirq.If):      # a conditioned gate written with cirq.If: the same leaf, `via` says how it is written
+            return dict(self.dleaf(op.sub_operation), cs=[self.dcond(c) for c in op.conditions], via='if')
         if isinstance(op, cirq.ClassicallyControlledOperation):
             cs = [self.dcond(c) for c in op._conditions]
             op = op._sub_operation
@@ -197,6 +225,8 @@ class Vocab:
         cirq = self.cirq
         if isinstance(op, cirq.ClassicallyControlledOperation) and isinstance(op._sub_operation, cirq.CircuitOperation):
             return dict(self.dsub(op._sub_operation), cs=[self.dcond(c) for c in op._conditions])
+        if isinstance(op, cirq.If) and isinstance(op.sub_operation, cirq.CircuitOperation):
+            return dict(self.dsub(op.sub_operation), cs=[self.dcond(c) for c in op.conditions], via='if')
         return self.dsub(op) if isinstance(op, cirq.CircuitOperation) else self.dleaf(op)
 
     def dcirc(self, c):
@@ -524,8 +554,11 @@ def s_depth(o):
 class Gen:
     """Structured generator of nested CircuitOperation records (all keys written at user level: empty paths)."""
 
-    def __init__(self, rng, sim=False, classical=False, param_leaves=None, loops=0.0, ctl=0.0):
+    def __init__(self, rng, sim=False, classical=False, param_leaves=None, loops=0.0, ctl=0.0, ifp=0.0):
         self.rng = rng
+        self.ifp = ifp          # probability that a classical control is written with cirq.If: a controlled sub-circuit as
+                                # cirq.If(conds, CircuitOperation) / cirq.If(conds, op1, op2, ...), a controlled gate (half as
+                                # often) as cirq.If(conds, gate)
         self.ctl = ctl          # probability that a nested sub-circuit is measurement-free (but may hold classically controlled
                                 # gates) and is itself put under a classical control reading keys of the enclosing scopes
         self.loops = loops      # probability that a measuring sub-circuit becomes a repeat_until loop (at any nesting level)
@@ -563,7 +596,10 @@ class Gen:
                 for _ in range(rng.choice([1, 1, 2])):
                     c = rcond(rng, lambda: ((), rng.choice(pool)), len(set(pool)))
                     cs.append(c)
-        return dict(t='leaf', uid=uid, sgn=rng.random() < 0.3, qs=qs, mk=[], cs=cs, ps=ps)
+        l = dict(t='leaf', uid=uid, sgn=rng.random() < 0.3, qs=qs, mk=[], cs=cs, ps=ps)
+        if cs and self.ifp and rng.random() < self.ifp / 2:
+            l['via'] = 'if'
+        return l
 
     def circuit(self, depth, nq, pure, outer_names, exact_depth=False):
         """moments over qubits 0..nq-1; returns (moments, names measured at the end)."""
@@ -584,6 +620,8 @@ class Gen:
                     o = self.sub(d2, len(free), 'nomeas' if ctl else pure, scope, free, exact_depth)
                     if ctl and o is not None and not s_mnames(o) and o['reps'] != 0:
                         o['cs'] = [rcond(rng, lambda: ((), rng.choice(scope)), len(set(scope))) for _ in range(rng.choice([1, 1, 2]))]
+                        if self.ifp and rng.random() < self.ifp:
+                            o['via'] = rng.choice(['if', 'if', 'ifops', 'ifnest', 'ifcco'])
                 else:
                     o = self.leaf(free, measured, pure, outer_names)
                 if o is None:
@@ -1012,6 +1050,10 @@ def _variants(o):
             x = copy.deepcopy(o)
             x['sgn'] = False
             yield x
+        if o.get('via'):
+            x = copy.deepcopy(o)
+            del x['via']
+            yield x
         return
     # a sub: drop moments, drop operations, reset fields, then recurse
     for i in range(len(o['c'])):
@@ -1035,6 +1077,10 @@ def _variants(o):
             x = copy.deepcopy(o)
             x['cs'] = [('key', c[1] if c[0] != 'sym' else c[2][0], -1)]
             yield x
+    if o.get('via'):        # written as a ClassicallyControlledOperation instead of cirq.If
+        x = copy.deepcopy(o)
+        del x['via']
+        yield x
     for k, v in (('qm', []), ('km', []), ('pm', []), ('pp', []), ('until', None)):
         if o[k]:
             x = copy.deepcopy(o)
@@ -1379,14 +1425,14 @@ def sim_case(rng, gen):
     return prep, names, rec
 
 
-def sim_defect(cirq, V, prep, D, ctl):
+def sim_defect(cirq, V, prep, D, ctl, via='cco'):
     """'' if simulating the wrapped operation and its unrolled circuit(s) gives the same records."""
     op = V.sub(D)
     flat = op.mapped_circuit(deep=True)
     pre = [cirq.Moment(V.op(o) for o in m) for m in prep]
     fin = cirq.Moment(cirq.measure(*[V.q(i) for i in range(4)], key='fin'))
     if ctl is not None:
-        cop = op.with_classical_controls(V.cond(ctl))
+        cop = cirq.If(V.cond(ctl), op) if via == 'if' else op.with_classical_controls(V.cond(ctl))
         wrapped = cirq.Circuit(pre + [cirq.Moment(cop), fin])
         flat_ms = [cirq.Moment(o.with_classical_controls(V.cond(ctl)) for o in m) for m in flat.moments]
     else:
@@ -1395,9 +1441,7 @@ def sim_defect(cirq, V, prep, D, ctl):
     unrolled = cirq.Circuit(pre + flat_ms + [fin])
     a = attempt(lambda: records_of(cirq, wrapped))
     b = attempt(lambda: records_of(cirq, unrolled))
-    dec = cirq.Circuit(cirq.decompose(wrapped, keep=lambda o: not isinstance(o.untagged, cirq.CircuitOperation)
-                                      and not (isinstance(o, cirq.ClassicallyControlledOperation)
-                                               and isinstance(o._sub_operation.untagged, cirq.CircuitOperation))))
+    dec = cirq.Circuit(cirq.decompose(wrapped, keep=lambda o: is_flat_leaf(cirq, o)))
     c = attempt(lambda: records_of(cirq, dec))
     if a[:2] != b[:2]:
         return 'records-wrapped-vs-unrolled', a, b
@@ -1419,12 +1463,13 @@ def sim_stream(ctx, cirq, V, n):
         D = V.dsub(op)
         if attempt(lambda: op.mapped_circuit(deep=True))[0] != 'ok':
             continue
-        ctl = None
+        ctl, via = None, 'cco'
         if not cirq.measurement_key_objs(op) and rng.random() < 0.5:
             ctl = rcond(rng, lambda: ((), rng.choice(names)), 2)
             if ctl[0] != 'sym' and ctl[2] > 0:      # the prepared keys have exactly one record
                 ctl = ctl[:2] + (0,) + ctl[3:]
-        kind, a, b = sim_defect(cirq, V, prep, D, ctl)
+            via = rng.choice(['cco', 'if'])         # op.with_classical_controls(ctl) or cirq.If(ctl, op)
+        kind, a, b = sim_defect(cirq, V, prep, D, ctl, via)
         done += 1
         ok = a[0] == 'ok'
         ctx.count('sim:records' if ok else 'sim:both-raise', (prep, D, ctl), ok and len(a[1]) > 1,
@@ -1432,9 +1477,10 @@ def sim_stream(ctx, cirq, V, n):
         if kind and f13_explains(ctx, cirq, V, D, [a, b]):
             continue
         if kind:
-            small = D if seen(ctx, f'sim:{kind}') else shrink(D, lambda x: sim_defect(cirq, V, prep, x, ctl)[0] == kind, budget=200)
+            small = D if seen(ctx, f'sim:{kind}') else shrink(D, lambda x: sim_defect(cirq, V, prep, x, ctl, via)[0] == kind, budget=200)
             ctx.violation(f'sim:{kind}', f'{kind}: {a[1:]} vs {b[1:]}; minimised operation: {V.sub(small)!r}'[:1800] +
-                          f' after prep {prep} control {ctl}', dict(kind='sim', prep=prep, rec=small, ctl=ctl, defect=kind))
+                          f' after prep {prep} control {ctl}' + (' written as cirq.If(control, operation)' if via == 'if' else ''),
+                          dict(kind='sim', prep=prep, rec=small, ctl=ctl, ctl_via=via, defect=kind))
 
 
 # ----------------------------------------------------------------------------------------------------------------
@@ -2079,9 +2125,28 @@ def rec_has_zero(D):
     return D['t'] == 'sub' and (D['reps'] == 0 or any(rec_has_zero(x) for m in D['c'] for x in m))
 
 
+def plain_leaf(l):
+    return {k: v for k, v in l.items() if k != 'via'}
+
+
+def has_if(D):
+    """Is some control of the nest written with cirq.If?"""
+    return bool(D.get('via')) or (D['t'] == 'sub' and any(has_if(x) for m in D['c'] for x in m))
+
+
+def has_if_block_with_inner_control(D):
+    """Does the nest hold a cirq.If over a sub-circuit whose body has classical controls of its own?"""
+    if D['t'] == 'leaf':
+        return False
+    inner = lambda o: bool(o.get('cs')) or (o['t'] == 'sub' and any(inner(x) for m in o['c'] for x in m))
+    if D.get('via') and any(inner(x) for m in D['c'] for x in m):
+        return True
+    return any(has_if_block_with_inner_control(x) for m in D['c'] for x in m)
+
+
 def inline_ctl(V, D):
     if D['t'] == 'leaf':
-        return D
+        return plain_leaf(D)      # the reference writes every controlled gate as a ClassicallyControlledOperation
     body = []
     for m in D['c']:
         keep, tail = [], []
@@ -2089,7 +2154,7 @@ def inline_ctl(V, D):
             y = inline_ctl(V, x)
             if y['t'] == 'sub' and y.get('cs'):
                 cs = list(y['cs'])
-                bare = {k: v for k, v in y.items() if k != 'cs'}
+                bare = {k: v for k, v in y.items() if k not in ('cs', 'via')}
                 for fm in V.dcirc(V.sub(bare).mapped_circuit(deep=True)):
                     tail.append([dict(l, cs=cs + list(l['cs'])) for l in fm])
             else:
@@ -2125,8 +2190,10 @@ def ctrace_sig(cirq, ops):
 
 
 def is_flat_leaf(cirq, o):
-    return not isinstance(o.untagged, cirq.CircuitOperation) and not (
-        isinstance(o, cirq.ClassicallyControlledOperation) and isinstance(o._sub_operation.untagged, cirq.CircuitOperation))
+    """A gate, a measurement or a ClassicallyControlledOperation over a gate.  A cirq.If is never one: it decomposes into
+    its sub-operation with the conditions attached."""
+    return not isinstance(o, cirq.If) and not isinstance(o.untagged, cirq.CircuitOperation) and not (
+        isinstance(o, cirq.ClassicallyControlledOperation) and not is_flat_leaf(cirq, o._sub_operation))
 
 
 def flatten_all(cirq, tree):
@@ -2172,10 +2239,16 @@ def ctl_nest_defect(cirq, V, prep, D, m2=None, path=(), bind=()):
     # (c) simulation (X / CNOT / measure / control: records are determined)
     want = attempt(lambda: records_of(cirq, flatc))
     # (a reference that reads a key nobody measures - a key map onto an unmeasured name - has no outcome to compare with)
-    for name, c in (('wrapped', lambda: wrapped), ('decomposed', lambda: cirq.Circuit(pre + [flatten_all(cirq, op), fin])))[:2 if want[0] == 'ok' else 0]:
+    # `program-order`: the circuit built from the same operation SEQUENCE with the default insertion strategy (every operation
+    # slides to the earliest moment its qubits and the keys it reports allow) instead of explicit moments
+    program = lambda: cirq.Circuit([o for m in pre for o in m.operations] + [op] + list(fin.operations))
+    for name, c in (('wrapped', lambda: wrapped), ('decomposed', lambda: cirq.Circuit(pre + [flatten_all(cirq, op), fin])),
+                    ('program-order', program))[:3 if want[0] == 'ok' else 0]:
         g = attempt(lambda: records_of(cirq, c()))
         if g[:2] != want[:2]:
-            return f'simulation-{name}', f'{name} circuit: {g[1:]}, flat reference: {want[1:]}'
+            return f'simulation-{name}', (f'{name} circuit: {g[1:]}, flat reference: {want[1:]}' + (
+                f'; the operation reports control keys {kset(cirq.control_keys(op))}, its flat reference reads '
+                f'{kset(cirq.control_keys(flat))}, and was placed in\n{c()}'[:900] if name == 'program-order' else ''))
     # (d) one further remapping of each kind, applied to the nest and to its reference nest
     B = frozenset(V.key(b) for b in bind)
     for name, t in (('key-map', lambda o: cirq.with_measurement_key_mapping(o, dict(m2 or {}))),
@@ -2201,16 +2274,35 @@ def spec_leaf_images(l, p, m, bind):
     return outs
 
 
-def ctl_top_defect(cirq, V, I, cs, m, path, bind):
-    """A controlled sub-circuit X = CCO(S, cs) taken alone: X decomposed, and X after a key map / after rescoping and then
-    decomposed, against the flat form (the unrolled S with cs on every operation) transformed condition by condition with
-    the positional definitions."""
+VIAS = ('cco', 'if', 'ifops', 'ifnest', 'ifcco')
+VIA_TEXT = dict(cco='CircuitOperation.with_classical_controls(conds)', **{'if': 'cirq.If(conds, CircuitOperation)'},
+                ifops='cirq.If(conds, op1, op2, ...)', ifnest='cirq.If(cond1, cirq.If(other conds, CircuitOperation))',
+                ifcco='cirq.If(cond1, CircuitOperation.with_classical_controls(other conds))')
+
+
+def ctl_parts(cirq, y):
+    """(conditions, controlled CircuitOperation) of a controlled sub-circuit in either form."""
+    if isinstance(y, cirq.If):
+        cs, sub = y.conditions, y.sub_operation
+    elif isinstance(y, cirq.ClassicallyControlledOperation):
+        cs, sub = y._conditions, y._sub_operation
+    else:
+        raise TypeError(f'not a controlled sub-circuit: {y!r}'[:200])
+    if not isinstance(sub, cirq.CircuitOperation):
+        raise TypeError(f'not a controlled sub-circuit: {y!r}'[:200])
+    return cs, sub
+
+
+def ctl_top_defect(cirq, V, I, cs, m, path, bind, via='cco'):
+    """A controlled sub-circuit X = CCO(S, cs) / cirq.If(cs, S) (the form `via`) taken alone: X decomposed, and X after a key
+    map / after rescoping and then decomposed, against the flat form (the unrolled S with cs on every operation) transformed
+    condition by condition with the positional definitions; the control keys X reports vs the keys the flat form reads."""
     IR = inline_ctl(V, I)
     fr = attempt(lambda: V.dcirc(V.sub(IR).mapped_circuit(deep=True)))
     if fr[0] != 'ok':
         return 'skip', ''
     leaves = [dict(l, cs=list(cs) + list(l['cs'])) for mo in fr[1] for l in mo]
-    X = V.sub(I).with_classical_controls(*[V.cond(c) for c in cs])
+    X = V.ctl(I, cs=cs, via=via)
     B = frozenset(V.key(b) for b in bind)
     want_ck = sorted({norm_key(k) for l in leaves for c in l['cs'] for k in spec_keys_of(c)})
     got_ck = attempt(lambda: mkeyset(cirq.control_keys(X)))
@@ -2280,7 +2372,7 @@ def ctl_top_grid():
     cases = []
     for io in (dict(), dict(pp=['s']), dict(reps=2), dict(km=[('b', 'm')]), dict(reps=2, use=True)):
         for deep in (False, True):
-            for cs in ([K('c')], [('sym', 2, [((), 'c'), ((), 'm')])], [K('m')]):
+            for cs in ([K('c')], [('sym', 2, [((), 'c'), ((), 'm')])], [K('m')], [('mask', ((), 'c'), -1, 1, True, 1), K('d')]):
                 for path, bind in ((['0'], [(('0',), 'm')]), (['0'], [(('0',), 'm'), ((), 'm'), ((), 'c')]), (['p', '1'], [(('p',), 'm'), ((), 'c')]),
                                    (['x', '0'], [(('x', '0'), 'm'), (('x',), 'c')]), ([], [((), 'm')]), (['0'], [])):
                     for m in ([('m', 'z')], [('c', 'm'), ('m', 'c')], [('b', 'y')]):
@@ -2288,6 +2380,49 @@ def ctl_top_grid():
                         if deep:
                             tgt = S([[tgt]])
                         cases.append((S([[X(0)], [tgt]], **io), cs, m, path, bind))
+    return cases
+
+
+def block_grid():
+    """Fixed cases (every seed): a conditional BLOCK - several operations under one control, written as
+    cirq.If(conds, op1, op2, ...), cirq.If(conds, CircuitOperation) or CircuitOperation.with_classical_controls(conds) - whose
+    body holds gates with classical controls of their own on keys that are NOT among the conditions of the block: a key
+    measured earlier in the enclosing sub-circuit (`m`), a key measured outside the nest (`e`), or both; the block sits in an
+    enclosing sub-circuit that rescopes / renames keys, directly or one level further down."""
+    X = lambda q, cs=(), via=None: dict(dict(t='leaf', uid=5, sgn=False, qs=[q], mk=[], cs=list(cs), ps=[]), **({'via': via} if via else {}))
+    CX = lambda a, b, cs=(): dict(t='leaf', uid=6, sgn=False, qs=[a, b], mk=[], cs=list(cs), ps=[])
+    M = lambda q, n: dict(t='leaf', uid=Vocab.MEAS, sgn=False, qs=[q], mk=[((), n)], cs=[], ps=[])
+    S = lambda c, **kw: dict(dict(t='sub', c=c, reps=1, ids=None, use=False, qm=[], km=[], pm=[], pp=[], ext=[], until=None), **kw)
+    K = lambda n: ('key', ((), n), -1)
+    encl = [dict(), dict(reps=2, use=True), dict(pp=['p']), dict(km=[('m', 'd')]), dict(km=[('e', 'g')]), dict(reps=2, use=True, ids=['x', 'y'], pp=['p'])]
+    wraps = [None, dict(pp=['w']), dict(reps=2, use=True)]
+    reads = [('m',), ('e',), ('m', 'e'), ('e', 'm')]
+    outer_cs = [[K('c')], [K('m')], [K('c'), ('sym', 0, [((), 'e')])]]
+    cases = []
+    for vi, via in enumerate(('ifops', 'if', 'cco', 'ifnest')):
+        for ei, e in enumerate(encl):
+            for wi, w in enumerate(wraps):
+                for ri, rd in enumerate(reads):
+                    for oi, ocs in enumerate(outer_cs):
+                        # the gates of the block: the first carries its own control (on alternate cases written as an If itself)
+                        body = [[X(1, [K(rd[0])], via='if' if (ei + ri) % 2 else None)]]
+                        if len(rd) > 1:
+                            body.append([CX(1, 3, [K(rd[1])])])
+                        body.append([X(1)] if len(rd) > 1 else [CX(1, 3)])
+                        block = S(body, cs=ocs, via=via)
+                        if (vi + wi) % 2:       # the block one level further down
+                            block = S([[block]])
+                        top = (ei + oi) % 2     # an unrelated top-level measurement `m` (value 0), the enclosing one measures 1
+                        nest = S([[X(0)], [M(0, 'm')], [block], [M(1, 'out')]], **e)
+                        if w is not None:
+                            nest = S([[nest]], **w)
+                        # c = 1, then e = 1 measured LATE on the same qubit (after two more gates): an operation that does not
+                        # report reading `e` can be placed before that measurement
+                        # (g = 0 is what the enclosing key map e -> g makes the body read instead)
+                        prep = [[M(3, 'g')], [X(2)], [M(2, 'c')], [X(2)], [X(2)], [M(2, 'e')]]
+                        if top:
+                            prep = prep + [[M(3, 'm')]]
+                        cases.append((dict(form=via, encl=ei, wrap=wi, reads=rd, ctl=oi, top=top, k=vi + ei + wi + ri + oi), prep, nest))
     return cases
 
 
@@ -2326,17 +2461,46 @@ def ctl_stream(ctx, cirq, V, n):
         ctx.count('sim:ctl-sub:grid', (prep, D), True, sample=dict(case=desc, op=repr(built[1])[:500]))
         if kind:
             report_ctl(ctx, cirq, V, prep, D, kind, detail, extra, desc)
-    # the controlled sub-circuit alone: decompose, key map, rescoping vs the flat form
+    # conditional blocks whose body reads keys that are not among the block's conditions (cirq.If forms and the plain one)
+    blocks = block_grid()
+    pick = lambda d: d['k'] % 5 == 0        # quick tier: a fixed fifth (every form x every body x every enclosing option occurs)
+    bfixed = [g for g in blocks if pick(g[0])] if quick else blocks
+    brest = [g for g in blocks if not pick(g[0])] if quick else []
+    for desc, prep, nest in bfixed + (rng.sample(brest, min(len(brest), 20)) if brest else []):
+        if over_time(ctx):
+            break
+        built = attempt(lambda: V.sub(nest))
+        if built[0] != 'ok':
+            ctx.violation('ctl-sub:rejected', f'block grid case {desc} is rejected by the constructor: {built[1:]}',
+                          dict(kind='ctl-nest', prep=prep, rec=nest, defect='rejected'))
+            continue
+        D = V.dsub(built[1])
+        extra = dict(m2=[('m', 'z'), ('e', 'y')], path=['q'], bind=[((), 'e'), (('q',), 'm')])
+        kind, detail = ctl_nest_defect(cirq, V, prep, D, **extra)
+        if kind == 'skip':
+            ctx.streams['ctl-sub:grid-skipped'] += 1
+            continue
+        ctx.count('sim:ctl-sub:block-grid', (prep, D), True, sample=dict(case=desc, op=repr(built[1])[:600]))
+        ctx.streams['ctl-sub:block-grid:form:' + desc['form']] += 1
+        if kind:
+            report_ctl(ctx, cirq, V, prep, D, kind, detail, extra, desc)
+    # the controlled sub-circuit alone: decompose, key map, rescoping vs the flat form; every fixed case in the plain form and
+    # in one of the cirq.If forms (cycling), the seed-dependent ones in a random form
     tops = ctl_top_grid()
     tfixed = [g for i, g in enumerate(tops) if i % 5 == 0] if quick else tops
     trest = [g for i, g in enumerate(tops) if i % 5 != 0] if quick else []
     rows = []
-    for I, cs, m, path, bind in tfixed + (rng.sample(trest, min(len(trest), 30)) if trest else []):
+    for i, (I, cs, m, path, bind) in enumerate(tfixed):
         if over_time(ctx):
             break
-        ctl_top_case(ctx, cirq, V, I, cs, m, path, bind, rows)
-    # generated nests
-    gen = Gen(rng, sim=True, classical=True, ctl=0.7)
+        for via in (('cco', VIAS[1 + i % 4]) if quick else VIAS):
+            ctl_top_case(ctx, cirq, V, I, cs, m, path, bind, rows, via)
+    for I, cs, m, path, bind in (rng.sample(trest, min(len(trest), 30)) if trest else []):
+        if over_time(ctx):
+            break
+        ctl_top_case(ctx, cirq, V, I, cs, m, path, bind, rows, rng.choice(VIAS))
+    # generated nests (a control is written with cirq.If half of the time)
+    gen = Gen(rng, sim=True, classical=True, ctl=0.7, ifp=0.5)
     done = tries = 0
     while done < n and tries < 60 * n and not over_time(ctx):
         tries += 1
@@ -2361,6 +2525,10 @@ def ctl_stream(ctx, cirq, V, n):
             continue
         done += 1
         ctx.count(f'sim:ctl-sub:depth{s_depth(D) - 1}', (prep, D), True, sample=dict(op=repr(built[1])[:500]))
+        if has_if(D):
+            ctx.streams['ctl-sub:nest-with-cirq.If'] += 1
+        if has_if_block_with_inner_control(D):
+            ctx.streams['ctl-sub:nest-with-cirq.If-block-holding-controls'] += 1
         if kind and f13_explains_ctl(ctx, cirq, V, D, m2):
             continue
         if kind:
@@ -2373,7 +2541,7 @@ def ctl_stream(ctx, cirq, V, n):
             mm = sorted((a, b) for a, b in zip(inames, rng.sample(NAMES + ['y', 'z', 'k'], len(inames))) if rng.random() < 0.7)
             if len({dict(mm).get(x, x) for x in inames}) != len(inames):
                 mm = []
-            ctl_top_case(ctx, cirq, V, {k: v for k, v in I.items() if k != 'cs'}, I['cs'], mm, p2, b2, rows)
+            ctl_top_case(ctx, cirq, V, {k: v for k, v in I.items() if k not in ('cs', 'via')}, I['cs'], mm, p2, b2, rows, I.get('via') or 'cco')
     ctl_model_rows(ctx, cirq, V, rows)
 
 
@@ -2405,15 +2573,14 @@ def gLeaf(o):
     return (f'(Leaf {Z(o["uid"])} {gB(o["sgn"])} {gL(o["qs"], Z)} {gL(o["mk"], gK)} {gL(o["cs"], gC)} {gL(o["ps"], gP)})')
 
 
-def ctl_observe(cirq, V, I, cs, m, path, bind):
-    """What the implementation does with the controlled sub-circuit X = ClassicallyControlledOperation(S, cs)."""
-    X = V.sub(I).with_classical_controls(*[V.cond(c) for c in cs])
+def ctl_observe(cirq, V, I, cs, m, path, bind, via='cco'):
+    """What the implementation does with the controlled sub-circuit X = ClassicallyControlledOperation(S, cs) / cirq.If(cs, S)."""
+    X = V.ctl(I, cs=cs, via=via)
     B = frozenset(V.key(b) for b in bind)
 
     def pair(y):
-        if not (isinstance(y, cirq.ClassicallyControlledOperation) and isinstance(y._sub_operation, cirq.CircuitOperation)):
-            raise TypeError(f'not a controlled sub-circuit: {y!r}'[:200])
-        return [V.dcond(c) for c in y._conditions], V.dsub(y._sub_operation)
+        ycs, ysub = ctl_parts(cirq, y)
+        return [V.dcond(c) for c in ycs], V.dsub(ysub)
     return [attempt(lambda: pair(cirq.with_rescoped_keys(X, tuple(path), B))),
             attempt(lambda: pair(cirq.with_measurement_key_mapping(X, dict(m)))),
             attempt(lambda: pair(cirq.with_key_path_prefix(X, tuple(path)))),
@@ -2424,12 +2591,13 @@ def ctl_observe(cirq, V, I, cs, m, path, bind):
 def ctl_model_rows(ctx, cirq, V, rows):
     """The model of Circ/CtlSub.v against the implementation on the controlled sub-circuits taken alone: the piecewise
     transformations (conditions and controlled operation), the flat form and the control keys."""
-    rows = [r for r in rows if not has_ctl_sub(r[0])][:150 if ctx.tier == 'quick' else 1500]
+    rows = [r for r in rows if not has_ctl_sub(r[0])][:300 if ctx.tier == 'quick' else 3000]
     gpair = lambda x: f'({gL(x[0], gC)}, {gOp(x[1])})'
     obs, lines = [], []
-    for I, cs, m, path, bind in rows:
-        o = ctl_observe(cirq, V, I, cs, m, path, bind)
+    for I, cs, m, path, bind, via in rows:
+        o = ctl_observe(cirq, V, I, cs, m, path, bind, via)
         obs.append(o)
+        ctx.streams['ctl-sub:model:' + ('cirq.If' if via != 'cco' else 'ClassicallyControlledOperation')] += 1
         lines.append(f'(({gL(cs, gC)}, {gOp(I)}, {gL(m, lambda x: f"({gS(x[0])}, {gS(x[1])})")}, {gL(path, gS)}, {gL(bind, gK)}), '
                      f'({gRes(o[0], gpair)}, {gRes(o[1], gpair)}, {gRes(o[2], gpair)}, {gRes(o[3], lambda l: gL(l, gLeaf))}, '
                      f'{gRes(o[4], lambda l: gL(l, gK))}))')
@@ -2442,14 +2610,15 @@ def ctl_model_rows(ctx, cirq, V, rows):
         bad = run_coq(ctx, f'ctl{ci // CH}', defs, [(name, None, pred) for name, pred in CTL_PREDS])
         for (name, _), k in zip(CTL_PREDS, range(len(CTL_PREDS))):
             for idx in bad[name]:
-                I, cs, m, path, bind = rows[ci + idx]
+                I, cs, m, path, bind, via = rows[ci + idx]
                 got = obs[ci + idx][k]
-                ctx.mark_broken(f'correspondence:ctl:{name}', f'case {ci + idx}: controls {cs} on {I}, map={m} path={path} bindable={bind} '
-                                f'-> implementation {got}')
+                ctx.mark_broken(f'correspondence:ctl:{name}', f'case {ci + idx}: controls {cs} on {I} written as {VIA_TEXT[via]}, map={m} '
+                                f'path={path} bindable={bind} -> implementation {got}')
                 ctx.violation(f'correspondence:ctl:{name}',
                               (f'model (Circ/CtlSub.v) and implementation disagree on `{name}` of the controlled sub-circuit '
-                               f'{V.sub(I)!r}'[:1200] + f' with controls {cs}, map={m} path={path} bindable={bind}; implementation: {got}'[:700]),
-                              dict(kind='ctl-top', rec=I, cs=cs, m=m, path=path, bind=bind, defect='model:' + name), found_input=False)
+                               f'{V.sub(I)!r}'[:1200] + f' with controls {cs} written as {VIA_TEXT[via]}, map={m} path={path} bindable={bind}; '
+                               f'implementation: {got}'[:700]),
+                              dict(kind='ctl-top', rec=I, cs=cs, m=m, path=path, bind=bind, via=via, defect='model:' + name), found_input=False)
 
 
 def ctl_subs_of(D):
@@ -2462,27 +2631,36 @@ def f13_explains_ctl(ctx, cirq, V, D, m2):
     return sym_collision(inline_ctl(V, D), [dict(m2)] if m2 else []) and confirm_f13(ctx, cirq, V)
 
 
-def ctl_top_case(ctx, cirq, V, I, cs, m, path, bind, rows):
+def ctl_top_case(ctx, cirq, V, I, cs, m, path, bind, rows, via='cco'):
     built = attempt(lambda: V.sub(I))
     if built[0] != 'ok':
         return
     I = V.dsub(built[1])        # the record as the constructor normalises it (default repetition ids ...)
-    kind, detail = ctl_top_defect(cirq, V, I, cs, m, path, bind)
+    if via in ('ifnest', 'ifcco') and len(cs) < 2 or via == 'ifops' and any(I[k] != v for k, v in V.PLAIN.items()):
+        via = 'if'
+    kind, detail = ctl_top_defect(cirq, V, I, cs, m, path, bind, via)
     if kind == 'skip':
         return
-    ctx.count('ctl-sub:alone', (I, cs, m, path, bind), True, sample=dict(sub=repr(V.sub(I))[:300], controls=cs, key_map=m, path=path, bindable=bind))
-    rows.append((I, cs, m, path, bind))
+    ctx.count('ctl-sub:alone' + (':cirq.If' if via != 'cco' else ''), (I, cs, m, path, bind, via), True,
+              sample=dict(sub=repr(V.sub(I))[:300], controls=cs, written_as=VIA_TEXT[via], key_map=m, path=path, bindable=bind))
+    if via != 'cco':
+        ctx.streams['ctl-sub:alone:form:' + via] += 1
+    if via == 'ifops':      # the model is evaluated on the sub-circuit the constructor has made of the operations (its moments)
+        rows.append((V.dsub(ctl_parts(cirq, V.ctl(I, cs=cs, via=via))[1]), cs, m, path, bind, 'if'))
+    else:
+        rows.append((I, cs, m, path, bind, via))
     if kind:
         holder = dict(t='sub', c=[[inline_ctl(V, I)], [dict(t='leaf', uid=5, sgn=False, qs=[9], mk=[], cs=list(cs), ps=[])]], km=[])
         if sym_collision(holder, [dict(m)]) and confirm_f13(ctx, cirq, V):
             return
         sig = 'ctl-sub-alone:' + kind
-        fails = lambda x: ctl_top_defect(cirq, V, x, cs, m, path, bind)[0] == kind
+        fails = lambda x: ctl_top_defect(cirq, V, x, cs, m, path, bind, via)[0] == kind
         small = I if seen(ctx, sig) else shrink(I, fails, budget=60)
-        kd, d2 = ctl_top_defect(cirq, V, small, cs, m, path, bind) if small is not I else (kind, detail)
-        ctx.violation(sig, (f'classically controlled sub-circuit vs its flat form (the unrolled sub-circuit with the controls on every '
-                            f'operation): {kind}: {d2 or detail}'[:1100] + f'; sub-circuit {V.sub(small)!r}'[:1200] + f' controls {cs}'),
-                      dict(kind='ctl-top', rec=small, cs=cs, m=m, path=path, bind=bind, defect=kind))
+        kd, d2 = ctl_top_defect(cirq, V, small, cs, m, path, bind, via) if small is not I else (kind, detail)
+        ctx.violation(sig, (f'classically controlled sub-circuit (written as {VIA_TEXT[via]}) vs its flat form (the unrolled sub-circuit '
+                            f'with the controls on every operation): {kind}: {d2 or detail}'[:1100]
+                            + f'; the operation: {V.ctl(small, cs=cs, via=via)!r}'[:1300]),
+                      dict(kind='ctl-top', rec=small, cs=cs, m=m, path=path, bind=bind, via=via, defect=kind))
 
 
 # ----------------------------------------------------------------------------------------------------------------
@@ -2506,7 +2684,10 @@ def run(ctx):
                 'quick tier: every 11th case + 30 seed-dependent ones), fixed grid of controlled sub-circuits taken alone (5 options x 2 '
                 'depths x 3 controls x 6 (path, bindable) x 3 key maps; quick: every 5th + 30) and generated X/CNOT nests in which a nested '
                 'sub-circuit is measurement-free and under a classical control with p=0.7, each with a random further key map / path / '
-                'bindable set; up to 150 (1500) of the controlled sub-circuits taken alone go through the Coq model.  non-trivial = nesting depth >= 2 or any map / ids / path / repetitions != 1 (struct), >= 2 records (sim), '
+                'bindable set; every fixed case alone also in one of the four cirq.If forms (cycling; thorough: all), generated nests write a control '
+                'with cirq.If with p=0.5 (a controlled gate with p=0.25); block grid: 4 forms x 6 enclosing options x 3 wrappers x 4 bodies '
+                '(reads m / e / m,e / e,m) x 3 block conditions, block directly or one level down (quick: the fixed fifth with '
+                '(form+encl+wrap+body+cond) % 5 = 0, + 20 seed-dependent); up to 300 (3000) of the controlled sub-circuits taken alone go through the Coq model.  non-trivial = nesting depth >= 2 or any map / ids / path / repetitions != 1 (struct), >= 2 records (sim), '
                 '>= 2 branches (distribution); distinct by canonical record')
     ctx.assumptions += ['vf/checks/c12.py: construction of Cirq objects from case records and decoding back',
                         'key equality modelled componentwise (no ":" inside path components)',
@@ -2523,7 +2704,7 @@ def run(ctx):
     for name, f, nq, nt in (('keys', key_stream, 300, 3000), ('struct', struct_stream, 240, 2400), ('unitary', unitary_stream, 100, 1500),
                             ('sim', sim_stream, 120, 1500), ('until', until_stream, 40, 400), ('scoping', scope_stream, 60, 600),
                             ('distribution', dist_stream, 60, 600), ('struct_loops', struct_loops_stream, 60, 900),
-                            ('until_nested', nested_until_stream, 50, 800), ('ctl_sub', ctl_stream, 60, 900)):
+                            ('until_nested', nested_until_stream, 50, 800), ('ctl_sub', ctl_stream, 70, 1000)):
         t = time.time()
         f(ctx, cirq, V, nq if quick else nt)
         timing[name + '_s'] = round(time.time() - t, 1)
@@ -2626,13 +2807,13 @@ def replay(ctx, data):
         return d in ('', 'skip')
     if k == 'ctl-top':
         d, detail = ctl_top_defect(cirq, V, D, [norm_c(c) for c in data['cs']], [tuple(x) for x in data['m']], list(data['path']),
-                                   [norm_key(b) for b in data['bind']])
+                                   [norm_key(b) for b in data['bind']], data.get('via') or 'cco')
         print('controlled sub-circuit vs its flat form:', (d + ': ' + detail) if d else 'agree')
         return d in ('', 'skip')
     if k in ('sim', 'until'):
         prep = [[norm_rec(o) for o in m] for m in data['prep']]
         if k == 'sim':
-            d, a, b = sim_defect(cirq, V, prep, D, None if data.get('ctl') is None else norm_c(data['ctl']))
+            d, a, b = sim_defect(cirq, V, prep, D, None if data.get('ctl') is None else norm_c(data['ctl']), data.get('ctl_via') or 'cco')
             print('records:', a[1:], 'vs', b[1:])
         else:
             d = until_defect(cirq, V, prep, D)
